@@ -183,6 +183,23 @@ SEEDS_C = ['p10', 'm10-20', 'bd1-s#f.5', 'c#fc0', 'lg(t, #fff, #000)', 'animic',
            'foo', 'baz', 'q', 'q:a', 'animdur', 'cnt', 'bxsh', 'trf:s3d', 'gtc:r', 'lg', 'p0.0', 'c#t', 'c#.5', 'mten', 'foo2']
 
 
+# numbers in every position of the markup language (counts, numbering bases, field indexes, names, values)
+SEEDS_M_NUM = ['a*3', 'ul>li.i$@3*2', 'li.i$$@-12*3', 'p{${1}}', 'p{${2:x}}', 'a[b=${3}]', 'h1', 'x[a=1]', 'p{1}', 'x.c1', 'x#i1', '(a+b)*2', 'a$*2', 'a[b$@7=c]*2',
+               'lorem3*2', 'p*2>lorem4', 'a[b=$@-5]*4', 'p{$@9}*2']
+import re as _re
+RE_BIG_LOREM = _re.compile(r'lorem[a-z]*(?:\d*-)?(\d{5,})', _re.I)
+
+
+def _lorem_count_beyond_conversion_limit(rec):
+    """`lorem<N>` takes its word count from the element name with int(): the count is unbounded (time and memory grow
+    with it), and beyond the interpreter's int conversion limit the conversion itself raises ValueError."""
+    if rec['kind'] != 'internal-error':
+        return False
+    d = rec['detail']
+    m = RE_BIG_LOREM.search(rec['case']['input'])
+    return bool(m and len(m.group(1)) > 4300 and d['exc'][0] == 'ValueError' and 'lorem' in str(d['exc'][1]) and 'integer string conversion' in d.get('msg', ''))
+
+
 def run_shard(desc, ctx):
     mon = Mon(ctx)
     reach = set()
@@ -212,6 +229,21 @@ def run_shard(desc, ctx):
                     mon.check(s, name, cfg, cls)
         else:
             rng = ctx.rng
+            for s in ('lorem' + '9' * 4400, 'ul>lorem3-' + '1' * 5000 + '*2', 'p>Loremru' + '7' * 4301):
+                mon.check(s, 'html', {'maxRepeat': 3}, 'markup:extreme-run:d2-lorem')
+            import sys
+            lim = getattr(sys, 'get_int_max_str_digits', lambda: 4300)() or 4300
+            for L in (lim - 2, lim - 1, lim, lim + 1):
+                # both sides of the interpreter's int <-> str conversion limit, for every number the languages read, with the digits
+                # that make base + counter one digit longer
+                for d in '91':
+                    run = d * L
+                    for s in ('li.i$@%s*3' % run, 'li*' + run, 'li.i$@-%s*3' % run, 'li.i$@-7*' + run, 'p{${%s}}' % run, 'p{${%s:x}}' % run, 'a[b=${%s}]' % run,
+                              'p{%s}' % run, 'h' + run, 'x.c%s' % run, '(a+b)*' + run, 'a[b$@%s=c]*2' % run, 'p{$@%s}*2' % run, 'li.i$@-%s*%s' % (run, run)):
+                        mon.check(s, 'html', {'maxRepeat': 3}, 'markup:extreme-run')
+                    for s in ('p${%s}' % run, 'p${%s:x}' % run, 'p' + run, 'p.' + run, 'p-' + run, 'c#' + run, 'c#f.' + run, '@w' + run, 'p%s.%s' % (run, run), 'z' + run,
+                              'p%se' % run, 'bd1-s#f.' + run):
+                        mon.check(s, 'css', {'type': 'stylesheet'}, 'css:extreme-run')
             for i in range(desc['n']):
                 a = rng.choice(SEEDS_M) if rng.random() < 0.5 else gen_abbr.random_abbreviation(rng)
                 for m in mutations(a, MUT_CHARS_M, rng, 12):
@@ -226,6 +258,25 @@ def run_shard(desc, ctx):
                     mon.check(stretch.stretch_class(a, rng, classes=('abcdef', '$', '^', '.', '-', ' ', '(', '[', '{', '@', '#')), name, cfg, 'markup:stretched')
                     name, cfg = rng.choice(CSS_CFGS)
                     mon.check(stretch.stretch_class(rng.choice(SEEDS_C), rng), name, cfg, 'css:stretched')
+                for _ in range(3):
+                    # run lengths at the limits of the interpreter (float overflow, int <-> str conversion limit)
+                    name, cfg = rng.choice(MARKUP_CFGS)
+                    cfg = dict(cfg)
+                    cfg.setdefault('maxRepeat', rng.choice([3, 300]))
+                    s, cl, k = stretch.stretch_extreme(a if rng.random() < 0.6 else rng.choice(SEEDS_M_NUM), rng)
+                    if cl is not None and len(s) < 30000:
+                        big_lorem = RE_BIG_LOREM.search(s)
+                        if big_lorem is None:
+                            mon.check(s, name, cfg, 'markup:extreme-run')
+                            ctx.state('extreme-run', 'markup %r x %d' % (cl[:3], k))
+                        elif len(big_lorem.group(1)) > 4300:
+                            # D2: the open finding on unbounded lorem counts (beyond the conversion limit the failure is immediate)
+                            mon.check(s, name, cfg, 'markup:extreme-run:d2-lorem')
+                    name, cfg = rng.choice(CSS_CFGS)
+                    s, cl, k = stretch.stretch_extreme(rng.choice(SEEDS_C), rng, classes=('0123456789', '$', '.', '-', ' ', '@', '#', '!', '+', ':', 'abcdef', '%'))
+                    if cl is not None:
+                        mon.check(s, name, cfg, 'css:extreme-run')
+                        ctx.state('extreme-run', 'css %r x %d' % (cl[:3], k))
                 c = rng.choice(SEEDS_C) if rng.random() < 0.5 else gen_cssabbr.random_abbreviation(rng)
                 for m in mutations(c, MUT_CHARS_C, rng, 12):
                     name, cfg = rng.choice(CSS_CFGS)
@@ -253,4 +304,4 @@ def replay(case, ctx):
     Mon(ctx).check(case['input'], case['config_name'], case['config'], 'replay')
 
 
-CLASSIFIERS = {}
+CLASSIFIERS = {'C07-lorem-count-beyond-int-conversion-limit': _lorem_count_beyond_conversion_limit}
